@@ -544,7 +544,7 @@ func init() {
 		"Trailer.Set", "Trailer.Add",
 		// numeric / benign-by-construction or outside the statement's list (start line, protocol)
 		"RequestHeader.SetContentLengthBytes", "ResponseHeader.SetContentLengthBytes", "RequestHeader.SetMethod", "RequestHeader.SetMethodBytes", "RequestHeader.SetRequestURI", "RequestHeader.SetRequestURIBytes",
-		"RequestHeader.SetProtocol", "ResponseHeader.SetProtocol", "RequestHeader.SetRawHeaders", "Trailer.SetTrailers", "Trailer.UpdateArgBytes",
+		"RequestHeader.SetProtocol", "ResponseHeader.SetProtocol", "RequestHeader.SetRawHeaders", "Trailer.SetTrailers", "Trailer.AddTrailers", "Trailer.UpdateArgBytes",
 	} {
 		covered[n] = true
 	}
